@@ -7,6 +7,7 @@ a user-written copy operation that skips a member, or mutable static storage.
 from facts import is_node, walk, where, show
 import cxxtypes
 import flow
+import report
 
 VALUE_TEMPLATES = {"std::vector", "std::basic_string", "std::array", "std::set", "std::map", "std::unordered_map",
                    "std::unordered_set", "std::deque", "std::pair", "std::tuple", "std::optional", "std::allocator",
@@ -109,8 +110,30 @@ def run(F, chk):
     # ---------------- R11.2 relink dominance
     copyfrom = F.fn1("nifly::NifFile::CopyFrom")
 
+    # NiHeader methods that go through the header's pointer to the model's block vector
+    HDRC = "nifly::NiHeader"
+    deref = set()
+    for g in F.fns.values():
+        if g.get("cls") == HDRC and g.get("body") and g.get("short") != "SetBlockReference":
+            if any(x["k"] == "Member" and x.get("name") == "blocks" and x.get("owner") == HDRC and
+                   (x.get("base") is None or x["base"]["k"] == "This") for x in walk(g["body"])):
+                deref.add(g["id"])
+    if len(deref) < 5:
+        raise report.Broken("R11.2: fewer than 5 NiHeader methods read the block-vector pointer (%d)" % len(deref))
+    foreign_uses = []
+
     class Relink(flow.Flow):
         def on_node(self, n, st):
+            if st is None:
+                return st
+            if n["k"] == "OpCall" and n.get("op") == "=" and n.get("args") and is_node(n["args"][0]) and \
+                    n["args"][0]["k"] == "Member" and n["args"][0].get("name") == "hdr" and n["args"][0].get("owner") == "nifly::NifFile":
+                # the assigned header still carries the source's pointer until SetBlockReference(&blocks)
+                return st | {("D", "hdr:foreign")}
+            if n["k"] in ("Call", "OpCall") and ("D", "hdr:foreign") in st and n.get("fn") != "nifly::NiHeader::SetBlockReference":
+                ts = set(F.call_targets(n) or [])
+                if ts and any((t in deref) or (F.reachable([t]) & deref) for t in ts if t in F.fns):
+                    foreign_uses.append(n)
             if n["k"] == "Call":
                 sh = n.get("short")
                 if sh == "Clone":
@@ -121,7 +144,7 @@ def run(F, chk):
                             a["e"]["k"] == "Member" and a["e"].get("owner") == "nifly::NifFile":
                         b = a["e"].get("base")
                         if b is None or b["k"] == "This":
-                            return st | {("D", "setref:" + a["e"]["name"])}
+                            return frozenset(f for f in st if f != ("D", "hdr:foreign")) | {("D", "setref:" + a["e"]["name"])}
                 if n.get("fn") == "nifly::NifFile::LinkGeomData" and (n.get("recv") is None or n["recv"]["k"] == "This"):
                     return st | {("D", "linkgeom")}
             return st
@@ -134,6 +157,17 @@ def run(F, chk):
         if not ok:
             chk.violation("R11.2", "C11/R11.2:CopyFrom:%s" % need, where(copyfrom),
                           "NifFile::CopyFrom does not perform `%s` on every path: the copy keeps pointing into its source" % need)
+    seen_fu = set()
+    for n in foreign_uses:
+        if id(n) in seen_fu:
+            continue
+        seen_fu.add(id(n))
+        chk.violation("R11.2", "C11/R11.2:CopyFrom:foreign-header:%s" % (n.get("short") or n.get("op")), where(copyfrom, n),
+                      "NifFile::CopyFrom calls %s while the header it copied from the source still points at the SOURCE's block "
+                      "vector (SetBlockReference(&blocks) comes later): what it looks up and links are the source's blocks" %
+                      (n.get("fn") or n.get("short")))
+    chk.instance(R2, ok=not foreign_uses, sample={"fn": "NifFile::CopyFrom", "header_block_readers": len(deref),
+                                                  "calls_while_header_points_at_source": len(seen_fu)})
     # relink must come after the clone loop: check order at the call sites
     col = flow.Collect(F, copyfrom, lambda n: n["k"] == "Call" and n.get("short") == "Clone")
     col.run()
